@@ -1760,7 +1760,9 @@ func (m *mach) eval(fr *mframe, v ssa.Value) mv {
 			if mm, ok := mp.(*mMap); ok && mm != nil {
 				// a key that is not a constant selects among the entries like a chain of comparisons would:
 				// each comparison is a branch on a non-constant condition (explored in both directions, or outside the model)
-				if ksym, isSym := k.(*mSym); isSym && len(mm.keys) > 0 {
+				// (the description of a dynamic type, reflect.TypeOf, is a symbol that stands for exactly one type:
+				// its name decides)
+				if ksym, isSym := k.(*mSym); isSym && len(mm.keys) > 0 && ksym.rt == nil {
 					if _, same := mm.v["sym:"+ksym.name]; !same {
 						if m.decide == nil {
 							m.abort("a map lookup by the non-constant key %s at %s is outside the finite model", mRender(k), m.c.Pos(t.Pos()))
